@@ -382,7 +382,8 @@ class G:
         if k == 8:
             return {"h": "sector"}
         self.n_op += 1
-        name = self.pick(["ProcessSpecial", "message_Menu", "message_SwitchMenu", f"op_{self.n_op}", "main_EnterAdventure"])
+        name = self.pick(["ProcessSpecial", "message_Menu", "message_SwitchMenu", "message_SwitchMenu2", f"op_{self.n_op}", "main_EnterAdventure",
+                          "main_EnterRescueUser", "main_EnterTraining", "main_EnterTraining2"])
         args = [{"t": "int", "v": 300000 + self.n_op}] + [self.cond_arg() for _ in range(self.i(0, 2))]
         return {"h": "op", "op": {"k": "op", "name": name, "args": args, "ctx": None}}
 
